@@ -155,6 +155,22 @@ def introspect():
     if len(set(ne)) != 1: res['errors'].append('notification after an exception differs between the classes: %r' % ne)
     res['notifyOnError'] = all(ne)
 
+    # an owner that refuses the change (session over / deleted object: `_check_attr_change_` raises): is it asked BEFORE the
+    # built-in method runs, i.e. does a refused call leave the value as it was?
+    class Refusing(ProbeObj):
+        def _check_attr_change_(self, attr): raise RuntimeError('refused')
+        def _attr_changed_(self, attr): raise RuntimeError('refused')
+    def refuses_first(cls, sample, name, args):
+        owner = Refusing(); t = cls(owner, attr, sample); before = list(t.items()) if isinstance(t, dict) else list(t)
+        try: getattr(t, name)(*args)
+        except RuntimeError: pass
+        else: res['errors'].append('%s.%s on a refusing owner did not raise' % (cls.__name__, name))
+        return (list(t.items()) if isinstance(t, dict) else list(t)) == before
+    rf = [refuses_first(TrackedList, [1], 'append', (2,)), refuses_first(TrackedList, [2, 1], 'sort', ()), refuses_first(TrackedDict, {'a': 1}, '__setitem__', ('b', 2)),
+          refuses_first(TrackedDict, {'a': 1}, 'update', ({'b': 2},)), refuses_first(TrackedArray, [1], 'append', (2,)), refuses_first(TrackedArray, [1], '__iadd__', ([2],))]
+    if len(set(rf)) != 1: res['errors'].append('refusal before / after the change differs between the methods: %r' % rf)
+    res['refusesFirst'] = all(rf)
+
     def notifies(cls, sample, name, args):
         o = ProbeObj()
         t = cls(o, attr, sample)
@@ -198,7 +214,8 @@ def render(f):
              '  rebinds := %s,' % ('true' if f['rebinds'] else 'false'),
              '  assignRebinds := %s,' % ('true' if f['assignRebinds'] else 'false'),
              '  iterUnwrapped := [%s],' % ', '.join('(.%s, .%s)' % (m, k) for m, k in f['iterUnwrapped']),
-             '  notifyOnError := %s }' % ('true' if f['notifyOnError'] else 'false'),
+             '  notifyOnError := %s,' % ('true' if f['notifyOnError'] else 'false'),
+             '  refusesFirst := %s }' % ('true' if f['refusesFirst'] else 'false'),
              '',
              '/-- methods whose call on a bound instance reached `obj._attr_changed_` (probed; cross-check of `table`) -/',
              'def listNotify : List LM := %s' % lst(f['listNotify'], LM),
